@@ -18,7 +18,7 @@ for p in props:
             "evidence_file": f"/verif/evidence/{i}.json",
             "replay_cmd_template": f"./check {i} --replay {{path}}",
             "engine": "govc",
-            "level_claimed": {"category":"proof","text":m['text'],"design_ref":m.get('design_ref','DESIGN.md section 5 '+i)},
+            "level_claimed": {"category":"proof","text":m['text'],"design_ref":m.get("design_ref","DESIGN.md section 0.2 (as built) and section 5 "+i)},
             "level_note": m['note'],
             "technique": m.get('technique',"contract-based deductive verification: WP/symbolic execution over go/ssa of the real functions, contracts in *_verif.go, obligations discharged by cvc5/z3")
         })
